@@ -237,6 +237,23 @@ class PmfPredict(Contract):
             return {"confirmed": True, "key": "C10:EG._pmf_predict:raises", "what": f"_pmf_predict raised {type(ex).__name__}: {ex}"[:200], "replay": {"weights_index": [0, 3, 1, 2]}}
         want = sum(float(w[t]) * np.asarray(hs[t](X), dtype=float) for t in w.index)
         bad = not np.allclose(got, want)
+        if not bad:
+            # second scenario: the query is a DataFrame whose row labels are not 0..n-1 and the stored predictors answer with a Series carrying those labels
+            # (as least-squares learners written with pandas do); rows must still be paired by position.  (First weight > 0: with a zero first weight
+            # the unmodified code aligns on labels as well - not judged here.)
+            Xd = pd.DataFrame({"x": np.arange(6, dtype=float)}, index=[5, 3, 1, 4, 0, 2])
+            mk = lambda thr: (lambda X_: pd.Series((np.asarray(X_)[:, 0] > thr) * 1.0, index=getattr(X_, "index", None)))
+            hs2 = pd.Series({0: mk(0), 1: mk(2), 2: mk(4), 3: mk(1)})
+            w2 = pd.Series([0.25, 0.25, 0.5, 0.0], index=[0, 1, 2, 3])
+            eg._hs, eg.weights_ = hs2, w2
+            try:
+                got = np.asarray(eg._pmf_predict(Xd))[:, 1]
+                want = sum(float(w2[t]) * np.asarray(hs2[t](Xd), dtype=float) for t in w2.index)
+                bad = not np.allclose(got, want, equal_nan=False)
+                X, w = Xd.to_numpy(), w2
+            except Exception as ex:
+                return {"confirmed": True, "key": "C10:EG._pmf_predict:raises", "what": f"_pmf_predict raised {type(ex).__name__}: {ex} for a DataFrame query with row labels [5,3,1,4,0,2]"[:200],
+                        "replay": {"query_index": [5, 3, 1, 4, 0, 2]}}
         return {"confirmed": bool(bad), "key": "C10:EG._pmf_predict:mixture",
                 "what": f"ExponentiatedGradient._pmf_predict with weights_ {w.tolist()} labelled {list(w.index)}: P(1) = {got.tolist()}, weighted mixture of the stored predictors = {want.tolist()}",
                 "replay": {"X": X.tolist(), "weights": w.tolist(), "weights_index": list(w.index), "got": got.tolist(), "expected": want.tolist()}}
